@@ -286,3 +286,86 @@ pub open spec fn slot_handed_back<T>(sig: &Signal<T>, slot: MaybeUninit<T>, data
 }
 
 pub open spec fn payloads<T>(s: Seq<SignalTerminator<T>>) -> Seq<T> { s.map_values(|t: SignalTerminator<T>| payload(t)) }
+
+// ------------------------------------------------------------------ futures (Appendix A "futures")
+pub open spec fn nd<T>() -> int { if spec_needs_drop::<T>() { 1 } else { 0 } }
+
+/// type invariant of SendFuture between polls
+pub open spec fn send_fut_inv<T>(f: SendFuture<'_, T>) -> bool {
+    // O-rearm: a future in state Zero holds a signal that was never published
+    &&& (f.state is Zero ==> f.sig.fresh())
+    &&& !f.sig.is_sync()
+    // the value is still in the future until the operation is Done
+    &&& (!(f.state is Done) && big::<T>() ==> f.data.mem_contents() is Init)
+}
+pub open spec fn recv_fut_inv<T>(f: ReceiveFuture<'_, T>) -> bool {
+    &&& (f.state is Zero ==> f.sig.fresh())
+    &&& !f.sig.is_sync()
+    &&& (f.state is Zero && big::<T>() ==> f.data.mem_contents() is Uninit)
+    // the slot lent to the peer is initialised exactly when the peer filled it
+    &&& (f.state is Waiting && big::<T>() ==> ((f.data.mem_contents() is Init) <==> ptr_filled(f.sig.slot())))
+}
+/// the states in which `ReceiveFuture::poll` starts a new receive: Zero, or Done for the stream (re-arm)
+pub open spec fn recv_starts<T>(f: ReceiveFuture<'_, T>) -> bool {
+    f.state is Zero || (f.state is Done && f.is_stream)
+}
+
+/// complete post-condition of one poll of a send future (one reference step: Appendix A)
+pub open spec fn send_poll_post<T>(o: SendFuture<'_, T>, n: SendFuture<'_, T>, fx: Fx<T>, r: Poll<Result<(), SendError>>) -> bool {
+    if o.state is Zero {
+        &&& fx.cs.len() == 1
+        &&& send_first_section(fx, send_fut_value(o))
+        &&& match ref_send_class(pre0(fx)) {
+                SendClass::Closed => r == Poll::Ready(Err::<(), SendError>(SendError::Closed)) && n.state is Done
+                    && fx.local_reads == 0 && fx.local_drops == nd::<T>(),
+                SendClass::ReceiveClosed => r == Poll::Ready(Err::<(), SendError>(SendError::ReceiveClosed)) && n.state is Done
+                    && fx.local_reads == 0 && fx.local_drops == nd::<T>(),
+                SendClass::Handoff | SendClass::Buffered => r == Poll::Ready(Ok::<(), SendError>(())) && n.state is Done
+                    && fx.local_reads == 1 && fx.local_drops == 0,
+                SendClass::Full => r is Pending && n.state is Waiting && my_sender(fx) == o.sig.term()
+                    && fx.local_reads == 0 && fx.local_drops == 0,
+            }
+    } else {
+        // Waiting: completion is decided from the signal only; at most an observing section
+        &&& fx.cs.len() <= 1
+        &&& (fx.cs.len() == 1 ==> same_state(fx.cs[0].pre, fx.cs[0].post))
+        &&& no_effects(fx)
+        &&& fx.local_reads == 0
+        &&& match r {
+                Poll::Pending => n.state is Waiting && fx.local_drops == 0,
+                Poll::Ready(Ok(_)) => n.state is Done && o.sig.delivered() && fx.local_drops == 0,
+                Poll::Ready(Err(e)) => n.state is Done && !o.sig.delivered() && e == SendError::Closed && fx.local_drops == nd::<T>(),
+            }
+    }
+}
+pub open spec fn recv_poll_post<T>(o: ReceiveFuture<'_, T>, n: ReceiveFuture<'_, T>, fx: Fx<T>, r: Poll<Result<T, ReceiveError>>) -> bool {
+    if recv_starts(o) {
+        &&& fx.cs.len() == 1
+        &&& recv_first_section(fx)
+        &&& fx.local_reads == 0 && fx.local_drops == 0
+        &&& match ref_recv_class(pre0(fx)) {
+                RecvClass::Closed => r == Poll::Ready(Err::<T, ReceiveError>(ReceiveError::Closed)) && n.state is Done,
+                RecvClass::SendClosed => r == Poll::Ready(Err::<T, ReceiveError>(ReceiveError::SendClosed)) && n.state is Done,
+                RecvClass::Empty => r is Pending && n.state is Waiting && my_receiver(fx) == n.sig.term(),
+                _ => r == Poll::Ready(Ok::<T, ReceiveError>(ref_recv_value(pre0(fx))->0)) && n.state is Done,
+            }
+    } else {
+        &&& fx.cs.len() <= 1
+        &&& (fx.cs.len() == 1 ==> same_state(fx.cs[0].pre, fx.cs[0].post))
+        &&& no_effects(fx)
+        &&& fx.local_drops == 0
+        &&& match r {
+                Poll::Pending => n.state is Waiting && fx.local_reads == 0,
+                // O-spurious: a value is produced only on evidence of delivery, and it is the delivered one
+                Poll::Ready(Ok(v)) => n.state is Done && o.sig.delivered() && v == received(o.sig.term()) && fx.local_reads == 1,
+                Poll::Ready(Err(e)) => n.state is Done && !o.sig.delivered() && e == ReceiveError::Closed && fx.local_reads == 0,
+            }
+    }
+}
+pub open spec fn stream_result<T>(ir: Poll<Result<T, ReceiveError>>) -> Poll<Option<T>> {
+    match ir {
+        Poll::Pending => Poll::Pending,
+        Poll::Ready(Ok(v)) => Poll::Ready(Some(v)),
+        Poll::Ready(Err(_)) => Poll::Ready(None),
+    }
+}
